@@ -201,24 +201,6 @@ def run (ver : Ver) (s : Acct) : List Op → Acct
   | [] => s
   | op :: ops => run ver (step ver s op) ops
 
-/-- resources of which at least one bucket was put into a vault by this call at state `s`. -/
-def depositedRes (ver : Ver) (s : Acct) : Op → List Nat
-  | .ownerDeposit bs => bs.map (·.res)
-  | .tryRefund b g p =>
-    match tryDepositOrRefund ver s b g p with | .ok (_, _, none) => [b.res] | _ => []
-  | .tryBatchRefund bs g p =>
-    match tryDepositBatchOrRefund ver s bs g p with | .ok (_, _, none) => bs.map (·.res) | _ => []
-  | .tryAbort b g p =>
-    match tryDepositOrAbort s b g p with | .ok _ => [b.res] | _ => []
-  | .tryBatchAbort bs g p =>
-    match tryDepositBatchOrAbort s bs g p with | .ok _ => bs.map (·.res) | _ => []
-  | _ => []
-
-/-- all resources deposited during a history. -/
-def depositedTrace (ver : Ver) (s : Acct) : List Op → List Nat
-  | [] => []
-  | op :: ops => depositedRes ver s op ++ depositedTrace ver (step ver s op) ops
-
 /-! ### harness-level badge universe (used by the driver only)
 
 Badges `0..3`: `0 = Resource(Bf)`, `1 = Resource(Bnf)`, `2 = NonFungible(Bnf:#1#)`, `3 = NonFungible(Bnf:#2#)`,
